@@ -392,7 +392,9 @@ func (g *gen) styled(exported bool) string {
 	return fmt.Sprintf("%s%s%d", string(r), sep, g.n)
 }
 
-func isUpper(r rune) bool { return strings.ToUpper(string(r)) == string(r) && strings.ToLower(string(r)) != string(r) }
+func isUpper(r rune) bool {
+	return strings.ToUpper(string(r)) == string(r) && strings.ToLower(string(r)) != string(r)
+}
 
 // ---------------------------------------------------------------- types
 
@@ -493,12 +495,12 @@ var (
 	basicTypes = []*Ty{tBool, tInt, tInt8, tInt16, tInt32, tInt64, tUint, tUint8, tUint16, tUint32, tUint64, tUintptr, tByte, tRune, tF32, tF64, tC64, tC128, tString}
 )
 
-func ptrTo(t *Ty) *Ty    { return &Ty{K: KPtr, Elem: t, unit: -1} }
-func sliceOf(t *Ty) *Ty  { return &Ty{K: KSlice, Elem: t, unit: -1} }
-func arrayOf(n int, t *Ty) *Ty { return &Ty{K: KArray, Len: n, Elem: t, unit: -1} }
-func mapOf(k, v *Ty) *Ty { return &Ty{K: KMap, Key: k, Elem: v, unit: -1} }
+func ptrTo(t *Ty) *Ty           { return &Ty{K: KPtr, Elem: t, unit: -1} }
+func sliceOf(t *Ty) *Ty         { return &Ty{K: KSlice, Elem: t, unit: -1} }
+func arrayOf(n int, t *Ty) *Ty  { return &Ty{K: KArray, Len: n, Elem: t, unit: -1} }
+func mapOf(k, v *Ty) *Ty        { return &Ty{K: KMap, Key: k, Elem: v, unit: -1} }
 func chanOf(dir int, t *Ty) *Ty { return &Ty{K: KChan, Dir: dir, Elem: t, unit: -1} }
-func funcOf(ps, rs []*Ty) *Ty { return &Ty{K: KFunc, Params: ps, Results: rs, unit: -1} }
+func funcOf(ps, rs []*Ty) *Ty   { return &Ty{K: KFunc, Params: ps, Results: rs, unit: -1} }
 
 // u is the underlying type as far as the generator knows it.
 func (t *Ty) u() *Ty {
